@@ -62,6 +62,7 @@ def _displaced_container(rng, kx, s):
 
 
 def cases(rng, budget, widx, nworkers, tier):
+    gen.SPLIT_FACES[0] = 0.06        # membership must also hold for bodies one of whose faces is given in two coplanar pieces
     i = widx
     while True:
         kx, ks = PAIRS[i % len(PAIRS)]
@@ -124,6 +125,10 @@ def judge(case):
         tgt = os_ if mv["who"] == "container" else ox
         if mv.get("touch", True):
             C.touch(tgt, db if mv["who"] == "container" else da)
+        try:
+            ox in os_          # the same question is asked once before the move (its answer there may differ)
+        except Exception:
+            pass
         ret = tgt.move(G.Vector(*[float(c) for c in mv["v"]]))
         if mv["use"] == "returned":
             if mv["who"] == "container":
